@@ -540,11 +540,14 @@ public:
           // Important to assign to a local variable (i.e. make a copy)
           // Else, for tainted_volatile, this will allow a
           // time-of-check-time-of-use attack
-          // Read the pointee through the tainted_volatile so that it is
-          // decoded with the sandbox's ABI, not the application's
+          // Read the pointee through a tainted_volatile so that it is
+          // decoded with the sandbox's ABI, not the application's. Dereference
+          // the local copy of the pointer: impl() may itself live in sandbox
+          // memory and must not be read a second time
           auto val_copy = std::make_unique<T_Deref>();
           RLBOX_VERIF_POINT("copy_and_verify(pointer)", val, sizeof(T_Deref));
-          *val_copy = (*impl()).get_raw_value();
+          auto checked_ptr = tainted<T, T_Sbx>::internal_factory(val);
+          *val_copy = (*checked_ptr).get_raw_value();
           return verifier(std::move(val_copy));
         }
       }
@@ -585,13 +588,23 @@ private:
   inline const void* verify_range_helper(std::size_t count) const
   {
     static_assert(std::is_pointer_v<T>);
+    return verify_range_helper(
+      reinterpret_cast<const void*>(impl().get_raw_value()), count);
+  }
+
+  // The pointer is passed in rather than read from impl(): impl() may itself
+  // live in sandbox memory, so callers read it once and check and use that copy
+  template<typename T2 = T>
+  inline const void* verify_range_helper(const void* start,
+                                         std::size_t count) const
+  {
+    static_assert(std::is_pointer_v<T>);
     static_assert(detail::is_fundamental_or_enum_v<T_CopyAndVerifyRangeEl>);
 
     detail::dynamic_check(
       count != 0,
       "Called copy_and_verify_range/copy_and_verify_string with count 0");
 
-    auto start = reinterpret_cast<const void*>(impl().get_raw_value());
     if (start == nullptr) {
       return nullptr;
     }
@@ -612,18 +625,32 @@ private:
   inline std::unique_ptr<T_CopyAndVerifyRangeEl[]> copy_and_verify_range_helper(
     std::size_t count) const
   {
-    const void* start = verify_range_helper(count);
+    return copy_and_verify_range_helper(
+      reinterpret_cast<const void*>(impl().get_raw_value()), count);
+  }
+
+  template<typename T2 = T>
+  inline std::unique_ptr<T_CopyAndVerifyRangeEl[]> copy_and_verify_range_helper(
+    const void* unchecked_start,
+    std::size_t count) const
+  {
+    const void* start = verify_range_helper(unchecked_start, count);
     if (start == nullptr) {
       return nullptr;
     }
 
     auto target = std::make_unique<T_CopyAndVerifyRangeEl[]>(count);
 
+    // Index the pointer that was range checked, not impl(): impl() may itself
+    // live in sandbox memory and could have changed since the check
+    auto checked_ptr = tainted<T, T_Sbx>::internal_factory(
+      reinterpret_cast<T>(const_cast<void*>(start)));
+
     for (size_t i = 0; i < count; i++) {
-      // impl()[i] is a tainted_volatile: reading it converts from the
+      // checked_ptr[i] is a tainted_volatile: reading it converts from the
       // sandbox's ABI
       RLBOX_VERIF_POINT("copy_and_verify_range element", start, i);
-      target[i] = impl()[i].get_raw_value();
+      target[i] = checked_ptr[i].get_raw_value();
     }
 
     return target;
@@ -692,7 +719,7 @@ public:
       auto str_len = std::strlen(start) + 1;
       RLBOX_VERIF_POINT("copy_and_verify_string after strlen", start, str_len);
       std::unique_ptr<T_CopyAndVerifyRangeEl[]> target =
-        copy_and_verify_range_helper(str_len);
+        copy_and_verify_range_helper(start, str_len);
 
       RLBOX_VERIF_POINT("copy_and_verify_string before terminator",
                         start,
@@ -716,7 +743,8 @@ public:
       auto str_len = std::strlen(start) + 1;
       RLBOX_VERIF_POINT("copy_and_verify_string after strlen", start, str_len);
 
-      const char* checked_start = (const char*)verify_range_helper(str_len);
+      const char* checked_start =
+        (const char*)verify_range_helper(start, str_len);
       if (checked_start == nullptr) {
         std::string param = "";
         return verifier(param);
